@@ -210,4 +210,65 @@ theorem inv_copy {s s' : State} {a b full : Nat} (hi : Inv s) (h : step s (.copy
             omega
   · cases h
 
+theorem lay_setLay_ne (s : State) (a b : Nat) (x : Option Layout) (h : a ≠ b) :
+    (s.setLay a x).lay b = s.lay b := by
+  unfold State.setLay State.lay
+  simp only
+  rw [List.getElem?_set_ne h]
+
+theorem length_setLay (s : State) (a : Nat) (x : Option Layout) : (s.setLay a x).lays.length = s.lays.length := by
+  unfold State.setLay; simp
+
+theorem inv_setLay2 {s : State} {p' : Pool} {a b : Nat} {x y : Option Layout} (hi : Inv s)
+    (ha : a < s.lays.length) (hb : b < s.lays.length) (hab : a ≠ b)
+    (hd : Delta s.pool p' (layIds x ++ layIds y) (layIds (s.lay a) ++ layIds (s.lay b))) (hp : PoolPos p') :
+    Inv (({ s with pool := p' }.setLay a x).setLay b y) := by
+  refine ⟨hp, ?_⟩
+  intro j
+  have h1 := own_setLay ({ s with pool := p' } : State) a x ha j
+  have h2 := own_setLay (({ s with pool := p' } : State).setLay a x) b y (by rw [length_setLay]; exact hb) j
+  rw [lay_setLay_ne ({ s with pool := p' } : State) a b x hab] at h2
+  have h3 := hi.2 j
+  have h4 := hd j
+  have e1 : ({ s with pool := p' } : State).ownIds = s.ownIds := rfl
+  have e2 : ({ s with pool := p' } : State).lay a = s.lay a := rfl
+  have e3 : ({ s with pool := p' } : State).lay b = s.lay b := rfl
+  rw [e1, e2] at h1
+  rw [e3] at h2
+  simp only [List.count_append] at h4
+  show count p' j = _
+  omega
+
+theorem inv_lmove {s s' : State} {d src : Nat} (hi : Inv s) (h : step s (.lmove d src) = .ok s') : Inv s' := by
+  unfold step at h
+  simp only at h
+  split at h
+  · cases h
+  · rename_i Ls hLs
+    split at h
+    · cases h
+    · rename_i hc
+      simp only [decide_eq_true_eq, Nat.not_le] at hc
+      split at h
+      · injection h with h; subst h; exact hi
+      · rename_i hne
+        split at h
+        · cases h
+        · split at h
+          · cases h
+          · rename_i p1 hr
+            injection h with h; subst h
+            obtain ⟨dl, hp1⟩ := delta_releaseAll hr hi.1
+            refine inv_setLay2 hi hc (lay_lt hLs) hne ?_ hp1
+            rw [layIds_layoutInds] at dl
+            intro j
+            have := dl j
+            rw [hLs]
+            simp only [layIds, Layout.movedFrom, idsOf, List.count_append, List.count_nil] at *
+            omega
+
+theorem inv_lvec {s s' : State} {k : Nat} (hi : Inv s) (h : step s (.lvec k) = .ok s') : Inv s' := by
+  unfold step at h
+  injection h with h; subst h; exact hi
+
 end FeatModel.Pool
